@@ -258,6 +258,12 @@ def _corpus():
                   "image": [[0, 0, 0, 0, 0], [0, 3, 3, 3, 0], [0, 3, -1, 3, 0], [0, 3, 3, 3, 0], [0, 0, 0, 0, 0]],
                   "mask": [[1, 1, 1, 1, 1], [1, 1, 1, 1, 1], [1, 1, 0, 1, 1], [1, 1, 1, 1, 1], [1, 1, 1, 1, 1]],
                   "cls": ["corpus", "hole", "4-connected"]})
+        # the peak itself is masked out, all its neighbours are inside the mask (full and non-full structure)
+        for st in (None, E4, [[0, 1, 0], [0, 0, 0], [0, 0, 0]]):
+            c.append({"fn": fn, "shape": [5, 5], "idt": "float64", "mdt": "bool", "st": st,
+                      "image": [[0, 0, 0, 0, 0], [0, 0, 0, 0, 0], [0, 0, 5, 0, 0], [0, 0, 0, 0, 0], [0, 0, 0, 0, 0]],
+                      "mask": [[1, 1, 1, 1, 1], [1, 1, 1, 1, 1], [1, 1, 0, 1, 1], [1, 1, 1, 1, 1], [1, 1, 1, 1, 1]],
+                      "cls": ["corpus", "hole", "default" if st is None else "4-connected" if st == E4 else "one-sided3x3"]})
     return c
 
 
